@@ -133,31 +133,59 @@ theorem deColumn_ok (n : Nat) (c : Tree) (vs : List Nat) (h : deColumn n c = .ok
 theorem deColumn_eq (vs : List Nat) : deColumn vs.length (.seq (vs.map Tree.num)) = .ok vs := by
   simp [deColumn, natsOf_map_num]
 
-/-- what an accepted column list looks like: exactly one well-formed column of length `n` per listed
-id, the rest handed back -/
+/-- what an accepted column list looks like: one well-formed column per listed id — of length `n`
+for an id not seen before, empty for an id listed again — and the rest handed back -/
 theorem deColumns_ok (n : Nat) (idl : List Nat) (cols : List Tree) (acc filled : List (Nat × List Nat))
     (rest : List Tree) (h : deColumns n idl cols acc = .ok (filled, rest)) :
     ∃ used, cols = used ++ rest ∧ used.length = idl.length ∧
-      ∀ c ∈ used, ∃ vs : List Nat, c = .seq (vs.map Tree.num) ∧ vs.length = n := by
-  fun_induction deColumns n idl cols acc with
-  | case1 rest' acc => cases h; exact ⟨[], rfl, rfl, by simp⟩
-  | case2 => cases h
-  | case3 t ts c cs acc m hm => cases h
-  | case4 t ts c cs acc vs hvs hany hemp ih =>
-    obtain ⟨used, h1, h2, h3⟩ := ih h
-    refine ⟨c :: used, by rw [h1]; rfl, by simp [h2], ?_⟩
-    intro c' hc'
-    rcases List.mem_cons.1 hc' with rfl | hc'
-    · exact ⟨vs, deColumn_ok n _ vs hvs⟩
-    · exact h3 c' hc'
-  | case5 => cases h
-  | case6 t ts c cs acc vs hvs hany ih =>
-    obtain ⟨used, h1, h2, h3⟩ := ih h
-    refine ⟨c :: used, by rw [h1]; rfl, by simp [h2], ?_⟩
-    intro c' hc'
-    rcases List.mem_cons.1 hc' with rfl | hc'
-    · exact ⟨vs, deColumn_ok n _ vs hvs⟩
-    · exact h3 c' hc'
+      (∀ c ∈ used, ∃ vs : List Nat, c = .seq (vs.map Tree.num) ∧ (vs.length = n ∨ vs.length = 0)) ∧
+      ((acc.map (·.1) ++ idl).Nodup →
+        ∀ c ∈ used, ∃ vs : List Nat, c = .seq (vs.map Tree.num) ∧ vs.length = n) := by
+  induction idl generalizing cols acc with
+  | nil =>
+    simp only [deColumns] at h; cases h
+    exact ⟨[], rfl, rfl, by simp, by simp⟩
+  | cons t ts ih =>
+    cases cols with
+    | nil => simp [deColumns] at h
+    | cons c cs =>
+      simp only [deColumns] at h
+      split at h
+      · -- an id listed again
+        rename_i hany
+        cases hc : deColumn 0 c with
+        | error m => rw [hc] at h; cases h
+        | ok vs =>
+          rw [hc] at h
+          obtain ⟨used, h1, h2, h3, h4⟩ := ih cs acc h
+          refine ⟨c :: used, by rw [h1]; rfl, by simp [h2], ?_, ?_⟩
+          · intro c' hc'
+            rcases List.mem_cons.1 hc' with rfl | hc'
+            · obtain ⟨e1, e2⟩ := deColumn_ok 0 _ vs hc
+              exact ⟨vs, e1, Or.inr e2⟩
+            · exact h3 c' hc'
+          · intro hnd
+            exfalso
+            obtain ⟨d, hd, hdt⟩ := List.any_eq_true.1 hany
+            simp only [beq_iff_eq] at hdt
+            rw [List.nodup_append] at hnd
+            exact hnd.2.2 _ (List.mem_map_of_mem (f := fun x : Nat × List Nat => x.1) hd) _
+              (List.mem_cons_self (a := t) (l := ts)) hdt
+      · cases hc : deColumn n c with
+        | error m => rw [hc] at h; cases h
+        | ok vs =>
+          rw [hc] at h
+          obtain ⟨used, h1, h2, h3, h4⟩ := ih cs (acc ++ [(t, vs)]) h
+          refine ⟨c :: used, by rw [h1]; rfl, by simp [h2], ?_, ?_⟩
+          · intro c' hc'
+            rcases List.mem_cons.1 hc' with rfl | hc'
+            · obtain ⟨e1, e2⟩ := deColumn_ok n _ vs hc
+              exact ⟨vs, e1, Or.inl e2⟩
+            · exact h3 c' hc'
+          · intro hnd c' hc'
+            rcases List.mem_cons.1 hc' with rfl | hc'
+            · exact ⟨vs, deColumn_ok n _ vs hc⟩
+            · exact h4 (by simpa using hnd) c' hc'
 
 /-- column format, summary of everything an accepted archetype block satisfies -/
 theorem deArchetype_ok_shape (H : List Nat) (w w' : World) (n0 k0 : Nat) (ids comps : List Tree)
@@ -167,15 +195,17 @@ theorem deArchetype_ok_shape (H : List Nat) (w w' : World) (n0 k0 : Nat) (ids co
       comps = .seq (bits.map Tree.num) :: cols ∧ bits.length = n0 ∧
       bits.map entityOfBits = es.map some ∧ (es.map (·.id)).Nodup ∧
       cols.length = idl.length ∧
-      ∀ c ∈ cols, ∃ vs : List Nat, c = .seq (vs.map Tree.num) ∧ vs.length = n0 := by
+      (∀ c ∈ cols, ∃ vs : List Nat, c = .seq (vs.map Tree.num) ∧ (vs.length = n0 ∨ vs.length = 0)) ∧
+      (idl.Nodup → ∀ c ∈ cols, ∃ vs : List Nat, c = .seq (vs.map Tree.num) ∧ vs.length = n0) := by
   obtain ⟨n, k, ids', ents, cols, idl, bits, es, filled, ht, -, -, hidl, hH, hbits, hes, hlen, hnd, hcols, -⟩ :=
     deArchetype_ok_inv H w _ w' h
   simp only [Tree.seq.injEq, List.cons.injEq, Tree.num.injEq, and_true] at ht
   obtain ⟨rfl, rfl, rfl, rfl⟩ := ht
-  obtain ⟨used, h1, h2, h3⟩ := deColumns_ok _ idl cols [] filled [] hcols
+  obtain ⟨used, h1, h2, h3, h4⟩ := deColumns_ok _ idl cols [] filled [] hcols
   rw [List.append_nil] at h1; subst h1
   have hes' := (mapM_eq_some _ _ _).1 hes
-  refine ⟨idl, bits, es, cols, (natsOf_eq_some _ _).1 hidl, by simpa using hH, ?_, ?_, hes', hnd, h2, h3⟩
+  refine ⟨idl, bits, es, cols, (natsOf_eq_some _ _).1 hidl, by simpa using hH, ?_, ?_, hes', hnd, h2, h3,
+    fun hn => h4 (by simpa using hn)⟩
   · rw [(natsOf_eq_some _ _).1 hbits]
   · have := congrArg List.length hes'; simp at this; omega
 
@@ -243,15 +273,34 @@ theorem deArchetype_entity_count (H : List Nat) (w : World) (n0 k0 : Nat) (ids e
   obtain ⟨rfl, -⟩ := hc
   simp at hlen; omega
 
-/-- a column shorter or longer than the announced entity count -/
+/-- a column longer than the announced entity count, or shorter and not empty -/
 theorem deArchetype_column_length (H : List Nat) (w : World) (n0 k0 : Nat) (ids ents cols : List Tree)
-    (xs : List Tree) (hc : Tree.seq xs ∈ cols) (hlen : xs.length ≠ n0) :
+    (xs : List Tree) (hc : Tree.seq xs ∈ cols) (hlen : xs.length ≠ n0) (hne : xs.length ≠ 0) :
     ∃ m, deArchetype H w (.seq [.num n0, .num k0, .seq ids, .seq (.seq ents :: cols)]) = .error m := by
   apply error_of_not_ok; intro w' h
-  obtain ⟨idl, bits, es, cols', -, -, hcs, -, -, -, -, hall⟩ := deArchetype_ok_shape H w w' _ _ _ _ h
+  obtain ⟨idl, bits, es, cols', -, -, hcs, -, -, -, -, hall, -⟩ := deArchetype_ok_shape H w w' _ _ _ _ h
   simp only [List.cons.injEq, Tree.seq.injEq] at hcs
   obtain ⟨-, rfl⟩ := hcs
   obtain ⟨vs, hv, hvl⟩ := hall _ hc
+  simp only [Tree.seq.injEq] at hv
+  subst hv; rw [List.length_map] at hlen hne; omega
+
+/-- with pairwise distinct component ids, every column has exactly the announced length (an empty
+column is accepted only for an id that is listed a second time, where nothing is left to fill) -/
+theorem deArchetype_column_length_nodup (H : List Nat) (w : World) (n0 k0 : Nat) (idl : List Nat)
+    (ents cols : List Tree) (hnd : idl.Nodup)
+    (xs : List Tree) (hc : Tree.seq xs ∈ cols) (hlen : xs.length ≠ n0) :
+    ∃ m, deArchetype H w (.seq [.num n0, .num k0, .seq (idl.map Tree.num), .seq (.seq ents :: cols)]) = .error m := by
+  apply error_of_not_ok; intro w' h
+  obtain ⟨idl', bits, es, cols', hid, -, hcs, -, -, -, -, -, hall⟩ := deArchetype_ok_shape H w w' _ _ _ _ h
+  have : idl' = idl := by
+    have := congrArg natsOf hid
+    rw [natsOf_map_num, natsOf_map_num] at this
+    exact (Option.some.inj this).symm
+  subst this
+  simp only [List.cons.injEq, Tree.seq.injEq] at hcs
+  obtain ⟨-, rfl⟩ := hcs
+  obtain ⟨vs, hv, hvl⟩ := hall hnd _ hc
   simp only [Tree.seq.injEq] at hv
   subst hv; simp at hlen; omega
 
